@@ -5,6 +5,7 @@ FUNCTIONS = ["MeritFunctionForMatch._clip_to_max_steps", "MeritFunctionForMatch.
              "JacobianSolver.step@limit-block", "Optimize.set_knobs_from_x", "MeritFunctionForMatch.__call__@knob-block", "Optimize.step@self-calls"]
 RAC = "rac/c10.py"
 RAC_BUDGET = {"quick": 60, "thorough": 900}
+RAC_MIN = {"quick": 519, "thorough": 519}      # fewer run-time evaluations than this = the harness skipped its work: checker broken, not "held"
 DESIGN_REF = "DESIGN.md section 4, C10"
 TECHNIQUE = 'contract-based deductive verification (pyvc: nonlinear real arithmetic loop invariants for _clip_to_max_steps, block contract on the limit loop of JacobianSolver.step, frame of the knob writers via a ghost write map; z3) + run-time contracts on generated problems (log rows, write trace, two-run comparison)'
 TRUSTED = ["floats are treated as reals (DESIGN 2.3(1)); every 'up to rounding' clause is run-time only", 'numpy-lite model of pyvc/num_engine.py (vectors as length + array, in-place scaling as a scalar factor, np.abs/argmin/all, zip/enumerate/range) and, for element-wise numpy code, the pointwise abstraction of pyvc/pointwise_engine.py', 'numpy / LAPACK / scipy themselves', 'z3 (NRA/LRA + quantifiers), cvc5']
